@@ -145,8 +145,8 @@ EXTRA = {
  "C04": "Also: In structs with embedded structs (promoted fields stay untouched), value-equal instances told apart by pointer, collections used, extended and built again (optional dependency / group member registered after the first Build). Add calls refused half-way after a group member / identity / alias of theirs went in; several ready values of one type under aliases, keys and groups; a group of twelve members; variadic constructors; lookups under keys of another Go type with the same underlying string. Waves 15/16: group members around Remove steps for all lifetimes; variadic closures / method values / MakeFunc sharing code; swapped services; sibling providers. Wave 17: two parameter-object types with one name (function-local types) and different tags; Build / BuildWithContext / BuildWithOptions in turn.",
  "C05": "Also: verdict queries between incremental adds and after every rejected add (stale caches). Slot catalogue (core/slots.go): every unusual declaration form (two fields of one Go type, embedded fields, name+group fields, repeated parameters, ...) x every dependency slot, valid and with the cycle closed through that slot; Remove + re-Add by a constructor that depends on a remaining output of the same Add call. Waves 15/16: cycles through named functions without a result (all lifetimes, Build under a watchdog); a live provider after a failed Build and an edit that closes a cycle; a refused Build of one collection followed by a valid collection of the same types. Wave 17: a failed scoped / transient construction asked for again (directly, through consumers, through optional fields) under a watchdog; grow-sort-grow-sort on the graph; build doors. Wave 18: every cyclic set is also reached in two steps - the longest buildable prefix is built and used first, the registrations closing the cycle follow, the Build under observation comes last.",
  "C06": "Also: intermediate Builds; sort-vs-mutation concurrency on the graph. Sets built once while valid, then a required dependency removed: same verdict as a fresh collection with the same registrations. Ready values (several of one type) named by what they were registered as; directed sets with an identity of a multi-identity registration removed and registered again. Waves 15/16: a singleton that opens (keeps / closes) a scope during Build next to initializers that need singletons, all 24 registration orders x repeated builds; the initializer of one build-time scope closing the other. Wave 17: the graph is sorted, grown by dependency-free providers through both doors, and sorted again. Wave 18: a collection with a removal in its history against a collection that only ever saw what is left (optional dependency on the removed scoped service; with an intermediate Build; with re-registration).",
- "C07": "Also: directed multi-identity + Remove specs, intermediate Builds, optional / alias / group dependency forms. Slot catalogue: every unusual declaration form x every slot, valid and captive through that slot. Ready values (plain, keyed, grouped, aliased) as the depended-on registration in every lifetime pair; a captive consumer registered after a provider of the collection retried a multi-output constructor (second Build of the same collection). Wave 16: swapped services whose second Build must be refused (first provider closed or alive); sibling providers in the random sets. Wave 17: every verdict through Build, BuildWithContext, BuildWithOptions(nil) and BuildWithOptions(BuildTimeout) in turn.",
- "C08": "Also: Remove of the first sibling of a multi-output registration, required keyed dependencies on the built-in types (never satisfiable). Slot catalogue (valid / that slot's provider missing); a singleton constructor that opens a scope through the injected Provider during Build while a scope initializer takes a singleton that does not exist yet. Variadic constructors with the slice type registered (accepted, resolvable) and not registered (whatever Build accepts does not fail with 'service not found'). Waves 15/16: zero-valued single results of value types (a struct that only carries unregistered optional dependencies); swapped services; a refused Build of ANOTHER collection right before a valid one (process-wide state). Wave 17: build doors.",
+ "C07": "Also: directed multi-identity + Remove specs, intermediate Builds, optional / alias / group dependency forms. Slot catalogue: every unusual declaration form x every slot, valid and captive through that slot. Ready values (plain, keyed, grouped, aliased) as the depended-on registration in every lifetime pair; a captive consumer registered after a provider of the collection retried a multi-output constructor (second Build of the same collection). Wave 16: swapped services whose second Build must be refused (first provider closed or alive); sibling providers in the random sets. Wave 17: every verdict through Build, BuildWithContext, BuildWithOptions(nil) and BuildWithOptions(BuildTimeout) in turn. Wave 18: a scoped member registered in a consumed group AFTER Build (alone, next to other edits, through a module) must not reach the consumers of the provider built before; the second Build is refused.",
+ "C08": "Also: Remove of the first sibling of a multi-output registration, required keyed dependencies on the built-in types (never satisfiable). Slot catalogue (valid / that slot's provider missing); a singleton constructor that opens a scope through the injected Provider during Build while a scope initializer takes a singleton that does not exist yet. Variadic constructors with the slice type registered (accepted, resolvable) and not registered (whatever Build accepts does not fail with 'service not found'). Waves 15/16: zero-valued single results of value types (a struct that only carries unregistered optional dependencies); swapped services; a refused Build of ANOTHER collection right before a valid one (process-wide state). Wave 17: build doors. Wave 18: named functions without a result registered and removed before Build (alone / with the service they needed / registered again), acceptance compared with a fresh collection holding what is left.",
  "C09": "Also: shared-code constructors under overlap, provider.Close overlapping CreateScope on a still-open scope, worker watchdog for operations that never return. A fixed stress spec of multi-output constructors (grouped first output, keyed multi-return) in every lifetime. The root scope closed through its own handle while the provider is closed; close overlaps in an aged process (more than a million goroutines started); a Close method that joins a worker resolving from the scope being closed.",
  "C10": "Also: BuildWithContext cancelled from inside each Build-time invocation, aliases / multi-alias registrations, value-equal instances (tracked by pointer), disposables handed out by value (handle 0, zero-valued struct), Close overlapping in-flight constructions. Form catalogue in every lifetime; one disposable instance under two identities in the Close-overlap engine; outputs of registrations removed after the Add call; one failing Close per execution. Waves 15/16: re-entrant closes through grouping scopes that own nothing (a Close that never returns = leaked); an interface-typed registration whose constructor alternates between an implementation with and without Close. Wave 17: container-created disposables of non-comparable types (slice, map) under As aliases (fix 923d501). Wave 18: the provider closed by a singleton constructor during Build (the instance the closing constructor returns, one created before, one never reached; fix ad06ea1).",
  "C11": "Also: close-vs-close overlaps (leaf Close or context watcher parked inside each disposable Close while parent / grandparent / provider is closed; top-level scope being closed vs provider.Close) and the first-resolution race. CreateScope overlapping the Close of its parent / an ancestor at every callback and internal yield point, judged by the order rules. Close methods that close their own scope / an ancestor (directly, by cancel, from a descendant's instance) with the order judged; one alias of a singleton removed; the order oracle over histories in which a constructor fails once and the request is repeated; the root scope closed through its handle; aged-process overlaps; sibling churn. Wave 15: re-entrant closes with two sibling child scopes, grouping scopes. Wave 17: scopes created ON the root-scope handle and below; the handle closed: descendants first.",
